@@ -1,5 +1,6 @@
 import DmlcModel.Param.RunSpec
 import DmlcModel.Param.Spec
+import DmlcModel.Json.RoundTrip
 /-! dictionary / JSON forms (lemmas for the round-trip theorems).  Core Lean only. -/
 namespace DmlcModel.Param
 open DmlcModel
@@ -239,43 +240,167 @@ theorem field_roundtrip (ops : FloatOps) (f : Field) (hE : EnumsInRange f) (hN :
   rw [(set_ok_iff_literal ops f hE (zeroVal f.ty) s).1 v hlit]
   simp [hck]
 
-/-! ### JSON strings -/
+/-! ### JSON form: the dictionary is a key-sorted `std::map`, so C16's round trip applies -/
 
-/-- `ReadString` undoes `WriteString`: the escaped text followed by the closing quote reads back -/
-theorem jsonReadStrBody_escape : ∀ (s acc rest : Bytes),
-    jsonReadStrBody acc (jsonEscape s ++ (34 : Byte) :: rest) = some (acc ++ s, rest) := by
-  intro s
-  induction s with
-  | nil =>
-    intro acc rest
-    simp only [jsonEscape, List.nil_append]
-    unfold jsonReadStrBody
-    simp
-  | cons c cs ih =>
-    intro acc rest
-    unfold jsonEscape
-    by_cases h13 : c.toNat = 13
-    · have : c = 13 := UInt8.toNat_inj.mp h13
-      subst this
-      simp [jsonReadStrBody, ih]
-    · by_cases h10 : c.toNat = 10
-      · have : c = 10 := UInt8.toNat_inj.mp h10
-        subst this
-        simp [jsonReadStrBody, ih]
-      · by_cases h92 : c.toNat = 92
-        · have : c = 92 := UInt8.toNat_inj.mp h92
-          subst this
-          simp [jsonReadStrBody, ih]
-        · by_cases h9 : c.toNat = 9
-          · have : c = 9 := UInt8.toNat_inj.mp h9
-            subst this
-            simp [jsonReadStrBody, ih]
-          · by_cases h34 : c.toNat = 34
-            · have : c = 34 := UInt8.toNat_inj.mp h34
-              subst this
-              simp [jsonReadStrBody, ih]
-            · simp only [beq_iff_eq, h13, h10, h92, h9, h34, if_false, List.cons_append]
-              unfold jsonReadStrBody
-              simp [h13, h10, h92, h34, ih]
+theorem bytesLt_eq_json : ∀ a b : Bytes, bytesLt a b = Json.bytesLt a b := by
+  intro a
+  induction a with
+  | nil => intro b; cases b <;> rfl
+  | cons x xs ih =>
+    intro b
+    cases b with
+    | nil => rfl
+    | cons y ys =>
+      simp only [bytesLt, Json.bytesLt, ih ys]
+      by_cases h1 : x.toNat < y.toNat
+      · have : x < y := UInt8.lt_iff_toNat_lt.mpr h1
+        simp [h1, this]
+      · by_cases h2 : y.toNat < x.toNat
+        · have hn : ¬ x < y := fun h => h1 (UInt8.lt_iff_toNat_lt.mp h)
+          have hne : x ≠ y := by intro h; subst h; omega
+          simp [h1, h2, hn, hne]
+        · have hxy : x = y := UInt8.toNat_inj.mp (by omega)
+          subst hxy
+          simp [h1]
+
+/-- keys strictly increasing above a lower bound -/
+def chainK (lb : Bytes) : List Bytes → Prop
+  | [] => True
+  | k :: rest => bytesLt lb k = true ∧ chainK k rest
+
+/-- keys strictly increasing -/
+def incK : List Bytes → Prop
+  | [] => True
+  | k :: rest => chainK k rest
+
+theorem mapInsert_chainK {α : Type} (k : Bytes) (v : α) :
+    ∀ (m : List (Bytes × α)) (lb : Bytes), chainK lb (m.map (·.1)) → bytesLt lb k = true →
+      chainK lb ((mapInsert k v m).map (·.1)) := by
+  intro m
+  induction m with
+  | nil => intro lb _ h; simp [mapInsert, chainK, h]
+  | cons e rest ih =>
+    intro lb hc hk
+    obtain ⟨k', v'⟩ := e
+    simp only [List.map_cons, chainK] at hc
+    unfold mapInsert
+    by_cases h1 : bytesLt k k' = true
+    · simp only [h1, if_true, List.map_cons, chainK]
+      exact ⟨hk, trivial, hc.2⟩
+    · by_cases h2 : bytesLt k' k = true
+      · simp only [h1, h2, if_true, List.map_cons, chainK]
+        exact ⟨hc.1, ih k' hc.2 h2⟩
+      · have hkk : k = k' := bytesLt_total k k' (by simpa using h1) (by simpa using h2)
+        subst hkk
+        simp only [h1, List.map_cons, chainK]
+        exact ⟨hk, hc.2⟩
+
+theorem mapInsert_incK {α : Type} (k : Bytes) (v : α) (m : List (Bytes × α)) (h : incK (m.map (·.1))) :
+    incK ((mapInsert k v m).map (·.1)) := by
+  cases m with
+  | nil => simp [mapInsert, incK, chainK]
+  | cons e rest =>
+    obtain ⟨k', v'⟩ := e
+    simp only [List.map_cons, incK] at h
+    unfold mapInsert
+    by_cases h1 : bytesLt k k' = true
+    · simp only [h1, if_true, List.map_cons, incK, chainK]
+      exact ⟨trivial, h⟩
+    · by_cases h2 : bytesLt k' k = true
+      · simp only [h1, h2, if_true, List.map_cons, incK]
+        exact mapInsert_chainK k v rest k' h h2
+      · have hkk : k = k' := bytesLt_total k k' (by simpa using h1) (by simpa using h2)
+        subst hkk
+        simp only [h1, List.map_cons, incK]
+        exact h
+
+theorem foldl_mapInsert_incK {α : Type} : ∀ (L acc : List (Bytes × α)), incK (acc.map (·.1)) →
+    incK ((L.foldl (fun m e => mapInsert e.1 e.2 m) acc).map (·.1)) := by
+  intro L
+  induction L with
+  | nil => intro acc h; exact h
+  | cons e rest ih => intro acc h; exact ih _ (mapInsert_incK e.1 e.2 acc h)
+
+/-- `entry_map_` iterates in strictly increasing key order -/
+theorem entryMap_incK (S : Schema) : incK ((entryMap S).map (·.1)) :=
+  foldl_mapInsert_incK (allEntries 0 S) [] (by simp [incK])
+
+theorem getDictAux_keys (ops : FloatOps) (st : Struct) :
+    ∀ (L : List (Bytes × Nat × Field)) (kvs : List KV), getDictAux ops st L = .ok kvs →
+      kvs.map (·.1) = L.map (·.1) := by
+  intro L
+  induction L with
+  | nil => intro kvs h; simp [getDictAux] at h; subst h; rfl
+  | cons e rest ih =>
+    intro kvs h
+    obtain ⟨k, i, f⟩ := e
+    unfold getDictAux at h
+    cases hs : getString ops f (st i) with
+    | error er => simp [hs] at h
+    | ok s =>
+      simp only [hs] at h
+      cases hr : getDictAux ops st rest with
+      | error er => simp [hr] at h
+      | ok r =>
+        simp only [hr, Except.ok.injEq] at h
+        subst h
+        simp [ih r hr]
+
+/-- the dictionary form has strictly increasing keys -/
+theorem dict_incK (ops : FloatOps) (S : Schema) (st : Struct) (kvs : List KV) (h : dict ops S st = .ok kvs) :
+    incK (kvs.map (·.1)) := by
+  rw [getDictAux_keys ops st (entryMap S) kvs h]
+  exact entryMap_incK S
+
+theorem chainK_json (lb : Bytes) : ∀ (kvs : List KV), chainK lb (kvs.map (·.1)) →
+    Json.keysIncreasing ((lb, Json.Val.str []) :: (kvs.map fun kv => (kv.1, Json.Val.str kv.2))) = true := by
+  intro kvs
+  induction kvs generalizing lb with
+  | nil => intro _; rfl
+  | cons e rest ih =>
+    intro h
+    simp only [List.map_cons, chainK] at h
+    simp only [List.map_cons, Json.keysIncreasing, Bool.and_eq_true]
+    refine ⟨by rw [← bytesLt_eq_json]; exact h.1, ?_⟩
+    have := ih e.1 h.2
+    cases hr : rest with
+    | nil => rfl
+    | cons e2 r2 =>
+      rw [hr] at this
+      simp only [List.map_cons, Json.keysIncreasing, Bool.and_eq_true] at this ⊢
+      exact this
+
+theorem toJson_hasType (kvs : List KV) (h : incK (kvs.map (·.1))) :
+    Json.hasType jsonMapTy (toJson kvs) = true := by
+  unfold jsonMapTy toJson
+  simp only [Json.hasType, Bool.and_eq_true, List.all_map, List.all_eq_true]
+  refine ⟨?_, fun kv _ => by simp [Json.hasType]⟩
+  cases kvs with
+  | nil => rfl
+  | cons e rest =>
+    simp only [List.map_cons, incK] at h
+    have := chainK_json e.1 rest h
+    cases hr : rest with
+    | nil => rfl
+    | cons e2 r2 =>
+      rw [hr] at this
+      simp only [List.map_cons, Json.keysIncreasing, Bool.and_eq_true] at this ⊢
+      exact this
+
+theorem ofJson_toJson (kvs : List KV) : ofJson (toJson kvs) = some kvs := by
+  unfold toJson ofJson
+  induction kvs with
+  | nil => rfl
+  | cons e rest ih => simp [ofJsonPairs, ofJsonStr, ih]
+
+/-- **the map reader inverts the map writer** on every key-sorted `map<string,string>` (instance of the
+C16 round trip `readTop_writeTop` at `std::map<std::string, std::string>`) -/
+theorem json_map_roundtrip (kvs : List KV) (h : incK (kvs.map (·.1))) :
+    ∃ bs, jsonWriteMap kvs = some bs ∧ jsonReadMap bs = some kvs := by
+  have ht := toJson_hasType kvs h
+  obtain ⟨bs, hw, st, hr, _, _⟩ := Json.readTop_writeTop jsonMapTy (toJson kvs) (by decide) ht [] rfl
+  rw [Json.canon_eq_self jsonMapTy (toJson kvs) (by decide) ht, List.append_nil] at hr
+  refine ⟨bs, by simp [jsonWriteMap, hw], ?_⟩
+  simp [jsonReadMap, hr, ofJson_toJson]
 
 end DmlcModel.Param
